@@ -6,8 +6,8 @@ Open Scope Z_scope.
 (* per task: wait flag, refused attempts, attempts, how its call ended (0 entered and left, 1 LockedError, 2 cancelled, 3 never ended) *)
 (* a trace element: a lock command (with what it returned), or the start / end of a guarded body *)
 Inductive tev := E (e : event) | SecIn (i : nat) | SecOut (i : nat).
-(* per is_locked call of the probing task: rounds it may take at most (ceil(wait/step); 0 for the plain form), what its polls saw, what it returned *)
-Inductive case := CLock (traces : list (list (tev * bool))) (policy : list (bool * nat * nat * nat)) (probes : list (nat * list bool * bool)).
+(* per is_locked call of the probing task: rounds it may take at most (ceil(wait/step); 0 for the plain form), step and time the call took (ticks), what its polls saw (empty when the polls could not be observed), what it returned *)
+Inductive case := CLock (traces : list (list (tev * bool))) (policy : list (bool * nat * nat * nat)) (probes : list (nat * nat * nat * list bool * bool)).
 
 Fixpoint replay (c : cfg) (tr : list (tev * bool)) : bool :=
   match tr with
@@ -46,13 +46,13 @@ Fixpoint ok_lock (now : Z) (inside : list (nat * Z * Z)) (holder : option (nat *
       Bool.eqb r (match holder with Some (_, d) => now <? d | None => false end) && ok_lock now inside holder rest
   end.
 
-(* is_locked(wait, step): polls while the wait lasts, answers False at the first poll that finds the key absent, and
-   otherwise decides by one last poll once the wait is used up: n + 1 polls, never more *)
-Definition ok_probe (p : nat * list bool * bool) : bool :=
-  let '(n, polls, r) := p in
-  Bool.eqb r (forallb (fun b => b) polls) &&
-  (if r then Nat.eqb (length polls) (S n)
-   else Nat.leb 1 (length polls) && Nat.leb (length polls) (S n) && forallb (fun b => b) (removelast polls) && negb (last polls true)).
+(* is_locked(wait, step), seen from its caller only: True comes when the whole wait is used up, never earlier; False comes
+   at a poll instant (a whole number of steps after the call) no later than that; the answer is what the last observed poll
+   saw.  What the key's liveness was at each poll and at the return is checked in the trace (Probe events). *)
+Definition ok_probe (p : nat * nat * nat * list bool * bool) : bool :=
+  let '(n, st, el, polls, r) := p in
+  (if r then Nat.eqb el (n * st) else Nat.leb el (n * st) && Nat.eqb (el mod st) 0) &&
+  match polls with [] => true | _ => Bool.eqb r (last polls true) end.
 
 (* waiting policy: a waiting caller is never turned away (it keeps attempting until it acquires); a caller that does
    not wait is turned away by its first refused attempt and never enters afterwards *)
